@@ -100,6 +100,15 @@ class C13(TraceCheck):
                 progs.append([E("eqraw", a, a, n), E("observe", a)])
             progs.append([E("iterate", a), E("observe", a)])
             progs.append([E("add", a, 2), E("iterate", 5), E("observe", 5)])
+        # a value whose first run begins with a zero-width character (the accent cut off seed 4) added to values whose last
+        # run is formatted differently - also to values that share that last run with others (a copy, a whole-run slice,
+        # an earlier sum)
+        cut = E("slice", 4, 1, 3, 4)
+        for a in (1, 2, 4):
+            progs.append([cut, E("add", a, 5), E("observe", a), E("observe", 6)])
+            progs.append([cut, E("copy", a), E("add", a, 5), E("observe", 6), E("observe", a), E("observe", 7)])
+            progs.append([cut, E("add", a, 1), E("add", 6, 5), E("observe", a), E("observe", 6), E("observe", 7)])
+            progs.append([cut, E("withatts", 5, 1, 1), E("add", a, 6), E("observe", a), E("mul", a, 1, 2), E("add", 8, 6), E("observe", 8)])
         return progs
 
     def run_history(self, hist):
